@@ -23,6 +23,8 @@ import (
 type c19Session struct {
 	Version int `json:"version"` // -1 = build predating version tracking
 	Blocks  int `json:"blocks"`
+	// Override: the operator starts this session with app.DisableHardForkCheck (a refusal is only a warning)
+	Override bool `json:"override,omitempty"`
 }
 
 type c19History struct {
@@ -105,6 +107,29 @@ func c19Batch(j *orch.Job, r *orch.Result) error {
 			want, why := forkOracle(truth, forks, s.Version)
 			if legacy {
 				want = false // a build without version tracking has no check at all
+			}
+			if s.Override && !legacy {
+				// an overridden start always comes up; what it syncs is recorded in the ground truth like any other session
+				nd, err := harness.StartNode(harness.NodeConfig{DBPath: dbp, DisableFork: true}, w.Chain)
+				r.Count("override_sessions", 1)
+				if err != nil {
+					r.Violate("C19", "override-ignored", fmt.Sprintf("DisableHardForkCheck did not let the daemon start: %v", err), desc)
+					break
+				}
+				if s.Blocks > 0 {
+					nd.Run()
+					target := cur + uint32(s.Blocks)
+					if err := nd.WaitSynced(target, harness.WaitOpts{}); err != nil {
+						nd.Stop()
+						return err
+					}
+					for h := cur + 1; h <= target; h++ {
+						truth[h] = s.Version
+					}
+					cur = target
+				}
+				nd.Stop()
+				continue
 			}
 			nd, err := harness.StartNode(harness.NodeConfig{DBPath: dbp, DisableFork: legacy}, w.Chain)
 			r.Count("starts", 1)
@@ -233,7 +258,7 @@ func checkC19(c *Ctx) *orch.Outcome {
 				continue // legacy only as a prefix
 			}
 			for _, b := range blocks {
-				gen(append(prefix, c19Session{v, b}), depth+1)
+				gen(append(prefix, c19Session{Version: v, Blocks: b}), depth+1)
 			}
 		}
 	}
@@ -276,13 +301,54 @@ func checkC19(c *Ctx) *orch.Outcome {
 			}
 		}
 	}
-	total := len(hs)
-	if !c.Thorough() {
-		rng.Shuffle(len(hs), func(i, j int) { hs[i], hs[j] = hs[j], hs[i] })
-		if len(hs) > 480 {
-			hs = hs[:480]
+	// two (or three) forks with the earlier sessions started under the operator's override: the database gets
+	// past a fork it should have been stopped at, and a later ordinary start must still refuse it
+	var ov []c19History
+	for _, h := range all {
+		if len(h.Sessions) < 2 {
+			continue
+		}
+		tot := 0
+		var bounds []uint32
+		for _, s := range h.Sessions {
+			tot += s.Blocks
+			bounds = append(bounds, base+uint32(tot))
+		}
+		if tot < 3 {
+			continue
+		}
+		ss := append([]c19Session{}, h.Sessions...)
+		for i := range ss {
+			ss[i].Override = ss[i].Version >= 0
+		}
+		for k := 0; k < 3; k++ {
+			f1 := base + 1 + uint32(rng.Intn(tot))
+			f2 := f1 + 1 + uint32(rng.Intn(tot))
+			if f2 > base+uint32(tot) {
+				f2 = base + uint32(tot)
+			}
+			if f2 <= f1 {
+				continue
+			}
+			forks := []pegnet.ForkEvent{{ActivationHeight: f1, MinimumVersion: 1 + rng.Intn(2)}, {ActivationHeight: f2, MinimumVersion: 2 + rng.Intn(2)}}
+			if rng.Intn(3) == 0 && f1 > base+1 {
+				forks = append([]pegnet.ForkEvent{{ActivationHeight: f1 - 1, MinimumVersion: 1}}, forks...)
+			}
+			ov = append(ov, c19History{Sessions: ss, Forks: forks, Final: 1 + rng.Intn(3)})
 		}
 	}
+	rng.Shuffle(len(ov), func(i, j int) { ov[i], ov[j] = ov[j], ov[i] })
+	if !c.Thorough() && len(ov) > 1500 {
+		ov = ov[:1500]
+	}
+	total := len(hs) + len(ov)
+	if !c.Thorough() {
+		rng.Shuffle(len(hs), func(i, j int) { hs[i], hs[j] = hs[j], hs[i] })
+		if len(hs) > 3000 {
+			hs = hs[:3000]
+		}
+	}
+	hs = append(hs, ov...)
 	var jobs []orch.Job
 	per := (len(hs) + 31) / 32
 	for i := 0; i < len(hs); i += per {
@@ -295,8 +361,15 @@ func checkC19(c *Ctx) *orch.Outcome {
 	}
 	// the literal fork table with literal heights (a change to pegnet.Hardforks must not hide behind lab tables)
 	var lit []c19History
+	mk := func(p ...int) []c19Session {
+		var out []c19Session
+		for i := 0; i+1 < len(p); i += 2 {
+			out = append(out, c19Session{Version: p[i], Blocks: p[i+1]})
+		}
+		return out
+	}
 	for _, ss := range [][]c19Session{
-		{{-1, 9}}, {{-1, 10}}, {{-1, 11}}, {{-1, 10}, {2, 1}}, {{1, 12}}, {{0, 12}}, {{2, 12}}, {{1, 9}, {2, 3}}, {{2, 12}, {1, 0}}, {{-1, 5}, {1, 8}}, {{-1, 12}, {2, 2}},
+		mk(-1, 9), mk(-1, 10), mk(-1, 11), mk(-1, 10, 2, 1), mk(1, 12), mk(0, 12), mk(2, 12), mk(1, 9, 2, 3), mk(2, 12, 1, 0), mk(-1, 5, 1, 8), mk(-1, 12, 2, 2),
 	} {
 		for _, fin := range []int{1, 2} {
 			lit = append(lit, c19History{Sessions: ss, Final: fin})
@@ -318,6 +391,7 @@ func checkC19(c *Ctx) *orch.Outcome {
 	o.Extra["expected_refusals"] = orch.SumCounter(rs, "expected_refusals")
 	o.Extra["expected_accepts"] = orch.SumCounter(rs, "expected_accepts")
 	o.Extra["override_starts"] = orch.SumCounter(rs, "override_starts")
+	o.Extra["overridden_sessions"] = orch.SumCounter(rs, "override_sessions")
 	if c.Thorough() {
 		o.Exhaustive = true
 		o.Extra["exhaustive_within"] = "all histories of ≤3 sessions × versions {legacy(prefix only),1,2,3} × blocks {0,1,2,5} × one fork at every height within ±1 of a session boundary × minimum version {1,2,3} × final start version {1,2,3}"
